@@ -429,12 +429,19 @@ func TestPropExportImport(t *testing.T) {
 		parent := ""
 		switch {
 		case preserve:
-			// preserved ids need a parent with the original parent's id: a second instance
-			where = "secondInstance(preserve)"
+			// preserved ids go to a second instance (on the same one they would name
+			// the very nodes that were exported); the parent there has the original
+			// parent's id, another id, or is the instance root
 			dst = fix.New(t, fix.Opts{ID: "inst2"})
 			defer dst.Close()
-			write(t, dst, "holder", "inst2", data.Points{{Type: data.PointTypeTombstone, Time: g.tick()}, {Type: data.PointTypeNodeType, Text: data.NodeTypeGroup}})
-			parent = "holder"
+			parent = rapid.SampledFrom([]string{"holder", "holder2", "inst2"}).Draw(t, "preserveParent")
+			where = "secondInstance(preserve)"
+			if parent != "holder" {
+				where = "secondInstance(preserve,otherParentID)"
+			}
+			if parent != "inst2" {
+				write(t, dst, parent, "inst2", data.Points{{Type: data.PointTypeTombstone, Time: g.tick()}, {Type: data.PointTypeNodeType, Text: data.NodeTypeGroup}})
+			}
 		case where == "otherNode":
 			write(t, src, "dest", "inst", data.Points{{Type: data.PointTypeTombstone, Time: g.tick()}, {Type: data.PointTypeNodeType, Text: data.NodeTypeGroup}})
 			parent = "dest"
